@@ -76,10 +76,22 @@ impl Distribution1D for Binomial {
 pub fn binomial_inversion(n: u64, p: f64) -> u64 {
     let s = p / (1. - p);
     let a = ((n + 1) as f64) * s;
-    let mut r = (1. - p).powi(n as i32);
+    let r0 = (1. - p).powi(n as i32);
+    // Rounding can leave the summed mass below the uniform draw; the loop would then run past n
+    // forever. As in Kachitvichyanukul and Schmeiser's BINV, give up ten standard deviations above
+    // the mean (or at n) and start again with a new draw.
+    let nf = n as f64;
+    let bound = nf.min(nf * p + 10. * (nf * p * (1. - p) + 1.).sqrt());
+    let mut r = r0;
     let mut u = alea::f64();
     let mut x: u64 = 0;
     while u > r as f64 {
+        if x as f64 >= bound {
+            r = r0;
+            u = alea::f64();
+            x = 0;
+            continue;
+        }
         u -= r;
         x += 1;
         r *= a / (x as f64) - s;
